@@ -88,7 +88,7 @@ func scriptsOf(toks []string) []string {
 	for _, t := range toks {
 		k, arg := splitTok(t)
 		switch k {
-		case "src", "fromit":
+		case "src", "fromit", "chan", "slice":
 			out = append(out, arg)
 		case "join", "flat":
 			out = append(out, strings.Split(arg, ";")...)
@@ -265,11 +265,25 @@ func monitorXS(toks []string, out string) []fail {
 			}
 		}
 	}
-	t, ok := refPipeline(toks, false, true)
+	body, term := toks, ""
+	if n := len(toks); n > 1 && isTerminalX(toks[n-1]) {
+		body, term = toks[:n-1], toks[n-1]
+	}
+	t, ok := refPipeline(body, false, true)
 	if !ok {
 		return nil
 	}
 	want := "list " + showList(t.items)
+	switch k, arg := splitTok(term); k {
+	case "reduce":
+		acc := 0
+		for _, x := range t.items {
+			acc = acc*3 + toInt(x)
+		}
+		want = "val " + strconv.Itoa(acc)
+	case "equal":
+		want = fmt.Sprintf("equal %v", showList(t.items) == showList(scriptItems(parseScript(arg))))
+	}
 	if out != want {
 		return []fail{{"c07-value-xs-" + stageNames(toks), mkParams("xs", toks),
 			fmt.Sprintf("xslices %s on %s gives %s, the documentation defines %s", strings.Join(toks[1:], " "), toks[0], out, want)}}
@@ -757,31 +771,68 @@ func monitorPorts(c caseInfo, outs []string, st *implState) []fail {
 	return fails
 }
 
-// agree: the iterator, stream and xslices versions of one fault-free pipeline.
+// agreeLines: the iterator, stream and xslices cases of one fault-free pipeline `toks` (same source
+// script, same stages), possibly ending in a terminal token:
+//
+//	(none)      Collect / Collect / the list
+//	reduce      iterator.Reduce / stream.Reduce / xslices.Reduce (the same fold)
+//	equal=<sc>  iterator.Equal(pipeline, Slice(sc)) / - / xslices.Equal(list, sc)
+//	[src=v repeat=n]  iterator.Repeat / - / xslices.Repeat
+//
+// a nil case = that package has no such function.
+func agreeLines(toks []string) (it, st, xs []string) {
+	var body []string
+	term := ""
+	for i, t := range toks {
+		k, arg := splitTok(t)
+		if i == len(toks)-1 && isTerminalX(t) {
+			term = t
+			continue
+		}
+		if k == "runs" {
+			t = "runs=" + strings.Split(arg, ",")[0] + ",all,0"
+		}
+		body = append(body, t)
+	}
+	line := strings.Join(body, " ")
+	if len(body) == 2 {
+		if k, arg := splitTok(body[1]); k == "repeat" {
+			if hk, harg := splitTok(body[0]); hk == "src" && harg == "5" {
+				return []string{"it repeat=" + arg, "icollect 0"}, nil, []string{"xs " + line}
+			}
+		}
+	}
+	k, arg := splitTok(term)
+	switch k {
+	case "reduce":
+		return []string{"it " + line, "ireduce 0"}, []string{"st " + line, "reduce sum 1"}, []string{"xs " + line + " reduce"}
+	case "equal":
+		return []string{"it " + line, "it slice=" + arg, "iequal"}, nil, []string{"xs " + line + " " + term}
+	}
+	return []string{"it " + line, "icollect 0"}, []string{"st " + line, "collect 1"}, []string{"xs " + line}
+}
+
+func lastOut(lines []string) string {
+	if lines == nil {
+		return ""
+	}
+	o, _ := runImpl(lines)
+	a, _ := splitOut(o[len(o)-1])
+	return a
+}
+
+// agree: the iterator, stream and xslices versions of one fault-free pipeline give the same answer.
 func agree(toks []string) []fail {
 	if !monitorable(toks) {
 		return nil
 	}
-	var xs []string
-	for _, t := range toks {
-		k, arg := splitTok(t)
-		if k == "runs" {
-			t = "runs=" + strings.Split(arg, ",")[0] + ",all,0"
-		}
-		xs = append(xs, t)
-	}
-	line := strings.Join(xs, " ")
-	o1, _ := runImpl([]string{"it " + line, "icollect 0"})
-	o2, _ := runImpl([]string{"st " + line, "collect 1"})
-	o3, _ := runImpl([]string{"xs " + line})
-	a, _ := splitOut(o1[1])
-	b, _ := splitOut(o2[1])
-	cx := o3[0]
-	if a == b && b == cx {
+	it, st, xs := agreeLines(toks)
+	a, b, cx := lastOut(it), lastOut(st), lastOut(xs)
+	if (a == cx || it == nil) && (b == cx || st == nil) {
 		return nil
 	}
 	return []fail{{"c07-agree-" + stageNames(toks), mkParams("all", toks),
-		fmt.Sprintf("%s: iterator %q, stream %q, xslices %q", line, a, b, cx)}}
+		fmt.Sprintf("%s: iterator %q, stream %q, xslices %q", strings.Join(toks, " "), a, b, cx)}}
 }
 
 func toFailure(f fail, lines []string) vlib.Failure {
